@@ -104,6 +104,12 @@ def run_case(case, prefix):
                       seed=case.get("pad_seed", 0))
     script = case["script"]
     faults = case.get("faults", True)
+    from yowsup.layers.axolotl.layer_send import AxolotlSendLayer as _SL
+    saved_max = _SL.MAX_SENT_QUEUE
+    if case.get("queue_max"):
+        # the retry queue's capacity scaled down (class attribute), so that "queue full of old, acknowledged messages"
+        # is reachable by a short script; such scripts never have queue_max messages unacknowledged at once (no_burst)
+        _SL.MAX_SENT_QUEUE = case["queue_max"]
     plen, pmap = prefix
     points = []
     sent = []
@@ -150,22 +156,32 @@ def run_case(case, prefix):
                 else:
                     action_ok = True
             menu = []
+
+            def corruptible(j):
+                ob = w.server.outbox[j]
+                if ob and j in w.server.connected and ob[0][1].tag == "message" and ob[0][1].getChild("enc") is not None:
+                    return (j, ob[0][1]["id"]) not in corrupt_done and not ob[0][1]["retry_served"]
+                return False
             if steps:
-                menu.append(("step", steps[0]))
+                if case.get("corrupt_all") and steps[0][0] == "out" and corruptible(steps[0][1]):
+                    # scripted fault, not a deviation: the first delivery of every message is damaged
+                    menu.append(("corrupt", steps[0][1]))
+                else:
+                    menu.append(("step", steps[0]))
             elif action_ok:
                 menu.append(("action", pc))
             else:
                 break
             for s in steps[1:]:
                 menu.append(("step", s))
-            if steps and action_ok and action[0] == "send":
+            if steps and action_ok and action[0] == "send" and not case.get("no_burst"):
                 menu.append(("action", pc))            # burst: next send before the server has answered
             if faults and not has_restart:
                 for j in sorted(w.server.outbox):
                     ob = w.server.outbox[j]
                     if ob and j in w.server.connected and ob[0][1].tag == "message" and ob[0][1].getChild("enc") is not None:
                         mid = (j, ob[0][1]["id"])
-                        if mid not in corrupt_done and not ob[0][1]["retry_served"]:
+                        if mid not in corrupt_done and not ob[0][1]["retry_served"] and ("corrupt", j) not in menu:
                             menu.append(("corrupt", j))
                 for j in sorted(w.server.delivered):
                     last = None
@@ -208,6 +224,7 @@ def run_case(case, prefix):
         v = _oracle(case, w, sent, dup_count, corrupted, trace, harness_error)
         obs = tuple(sorted((a.jid[-6:-15:-1], tuple(type(e).__name__[:6] for e in a.all_received())) for a in w.accounts.values()))
     finally:
+        _SL.MAX_SENT_QUEUE = saved_max
         w.close()
     return points, v, obs
 
@@ -370,6 +387,15 @@ def scripts_for(tier):
     for i, st in enumerate(structs3):
         r = i % len(KINDS)
         add(3, [send(s, t, KINDS[(r + n) % len(KINDS)], n) for n, (s, t) in enumerate(st)])
+    # every first delivery damaged (scripted, so schedules and further faults are explored on top of it): retries of
+    # several messages are in flight together
+    add(2, [send("A", "B", "text", 0), send("A", "B", "image", 1)], corrupt_all=True)
+    add(2, [send("A", "B", "text", 0), send("B", "A", "location", 1)], corrupt_all=True)
+    add(3, [send("A", "G", "text", 0), send("A", "G", "contact", 1)], corrupt_all=True)
+    add(3, [send("A", "B", "text", 0), send("A", "C", "text", 1), send("A", "B", "extended_text", 2)], corrupt_all=True)
+    # the retry queue full of old messages (capacity scaled down to 2; every message is acknowledged before the next)
+    add(3, [send("A", "G", "text", 0), send("A", "G", "image", 1), send("A", "B", "text", 2)], queue_max=2, no_burst=True)
+    add(3, [send("A", "G", "text", 0), send("A", "B", "location", 1), send("A", "G", "text", 2), send("A", "C", "text", 3)], queue_max=2, no_burst=True)
     if not quick:
         # four accounts, group of four; four messages for the conversational shapes
         for k in KINDS:
